@@ -14,7 +14,44 @@ RULE = ("random (grammar | PDA) x (regex | DFA | NFA | epsilon-NFA) pairs over p
         "other operand types must raise NotImplementedError. Non-trivial: grammar with >=2 productions one of length "
         ">=2 and an automaton with >=2 states.")
 LEVEL = "proof"
-THEOREMS = ["Pfl.PDA.inter_lang",
+_CONVERTERS = []
+
+
+def _install_converter_probe():
+    """in-process observation (no source hook): remember the triple-variable converter that
+    cfg.intersection creates, so that its running-counter variables can be decoded"""
+    import pyformlang.cfg.cfg as cfgmod
+    orig = cfgmod.cvc.CFGVariableConverter
+    if getattr(orig, "_verif_probe", False):
+        return
+
+    class Probe(orig):
+        _verif_probe = True
+
+        def __init__(self, *a, **k):
+            super().__init__(*a, **k)
+            _CONVERTERS.append(self)
+    cfgmod.cvc.CFGVariableConverter = Probe
+
+
+def decode_inter(conv, I):
+    inv_s = {i: s for s, i in conv._inverse_states_d.items()}            # pylint: disable=protected-access
+    inv_x = {i: s for s, i in conv._inverse_stack_symbol_d.items()}     # pylint: disable=protected-access
+    names = {}
+    for i, plane in enumerate(conv._conversions):                         # pylint: disable=protected-access
+        for j, row in enumerate(plane):
+            for k, (_, var) in enumerate(row):
+                if var is not None:
+                    names[var.value] = "[%s|%s|%s]" % (inv_s[i].value, inv_x[j].value, inv_s[k].value)
+    ren = lambda v: names.get(v, v if isinstance(v, str) else "?%r" % (v,))  # noqa: E731
+    return {"vars": [ren(v.value) for v in I.variables], "ters": [t.value for t in I.terminals],
+            "start": ren(I.start_symbol.value) if I.start_symbol is not None else None,
+            "prods": [[ren(p.head.value), [["v", ren(x.value)] if G.xsym(x)[0] == "v" else ["t", x.value]
+                                           for x in p.body]] for p in I.productions]}
+
+
+THEOREMS = ["Pfl.CFG.interD_lang",
+            "Pfl.PDA.inter_lang",
             "Pfl.PDA.accFinal_iff",
             "Pfl.PDA.accEmpty_iff",
             "Pfl.CFG.cfgMem_iff",
@@ -65,7 +102,25 @@ def run_case(case, drv):
         ters = sorted(set(g["ters"]) | {s for s in symnames if any(t[1] == symnames.index(s) for t in R["delta"])})
         ters = [t for t in ters if isinstance(t, str)][:3]
         words = G.words_upto(ters, 3 if len(ters) > 2 else 4)
+        _install_converter_probe()
+        del _CONVERTERS[:]
         st, I = outcome(lambda: cfg.intersection(robj), limit=10.0)
+        if st == "ok" and rspec["kind"] == "fa" and _CONVERTERS and outcome(robj.is_deterministic) == ("ok", True) \
+                and all(isinstance(v, str) for v in g["vars"]) \
+                and not any(len(b) > 2 for _, b in g["prods"]):   # C#CNF#k numbering depends on set order
+            # structural correspondence with the Bar-Hillel model (operand used as is)
+            try:
+                dec = decode_inter(_CONVERTERS[-1], I)
+            except Exception:  # pylint: disable=broad-except
+                dec = None
+            if dec is not None:
+                M = drv.call("cfg.interD", G=g, D=R, symNames=symnames, stateNames=[str(v) for v in scodes.values])
+                if M is not None:
+                    res.corr += 1
+                    diff = G.same(G.canon_cnf_names(dec, g["vars"]), G.canon_cnf_names(M, g["vars"]), ("start", "prods"))
+                    if diff:
+                        res.corr_break("cfg.intersection", "structure differs from the Bar-Hillel model: %s" % diff,
+                                       detail={"impl": dec["prods"][:12], "model": M["prods"][:12]})
         if st != "ok":
             res.violation("cfg.intersection", "raised / hung: %s" % (I if st == "exc" else st),
                           detail={"outcome": [st, I]})
